@@ -43,6 +43,14 @@ pub fn req_meaning(s: &ReqSpec) -> Option<ReqM> {
         ReqSpec::Wmr(a, w, _, _) => ReqM::Wmr(*a, w.clone()),
         ReqSpec::Rwm(ra, rq, wa, w, _, _) => ReqM::Rwm(*ra, *rq, *wa, w.clone()),
         ReqSpec::Cus(_, b, d) => ReqM::Custom(*b, d.clone()),
+        ReqSpec::WmrX(a, b) => match ref_rsp_decode(b)? {
+            RspM::Regs(_, w) => ReqM::Wmr(*a, w),
+            _ => return None,
+        },
+        ReqSpec::RwmX(ra, rq, wa, b) => match ref_rsp_decode(b)? {
+            RspM::Regs(_, w) => ReqM::Rwm(*ra, *rq, *wa, w),
+            _ => return None,
+        },
         _ => return None,
     })
 }
@@ -438,7 +446,7 @@ fn c19_req(spec: &ReqSpec) -> String {
                 Err(_) => Ok(()),
                 Ok((_, bytes)) => {
                     let want = req_bytes(&m);
-                    if !req_fits(&m) || bytes != want {
+                    if !req_count_fits(&m) || bytes != want {
                         return Err(format!(
                             "encode succeeded with count fields that do not match the payload ({} items): header {}",
                             match &m { ReqM::Wmc(_, b) => b.len(), ReqM::Wmr(_, w) | ReqM::Rwm(_, _, _, w) => w.len(), _ => 0 },
@@ -626,6 +634,27 @@ fn adu_rsp(tr: &str, tid: u16, id: u8, spec: &PduSpec) -> String {
         })();
         verdict(class, r)
     })
+}
+
+/// the MBAP length field must be PDU length + 1; a PDU too long for the 16-bit field must be refused
+fn c05_len(n: usize, rsp: bool) -> String {
+    let data = vec![0x5Au8; n];
+    let mut buf = vec![0u8; n + 1 + 7 + 2];
+    let hdr = tcp::Header { transaction_id: 1, unit_id: 9 };
+    let e = if rsp {
+        catch(|| tcp::server::encode_response(tcp::ResponseAdu { hdr, pdu: ResponsePdu(Ok(Response::Custom(FunctionCode::Custom(0x41), &data))) }, &mut buf))
+    } else {
+        catch(|| tcp::server::encode_request(tcp::RequestAdu { hdr, pdu: RequestPdu(Request::Custom(FunctionCode::Custom(0x41), &data)) }, &mut buf))
+    };
+    let r: V = match e {
+        None => Err("encoder panicked".into()),
+        Some(Err(_)) => if n + 2 > 65535 { Ok(()) } else { Err(format!("a {}-byte PDU was refused although its length fits the MBAP field", n + 1)) },
+        Some(Ok(k)) => {
+            let field = buf[4] as usize * 256 + buf[5] as usize;
+            if field == n + 2 && k == n + 8 { Ok(()) } else { Err(format!("encode succeeded (n={k}) for a PDU of {} bytes with MBAP length field {field}: the field is PDU length + 1 = {} truncated to 16 bits", n + 1, n + 2)) }
+        }
+    };
+    verdict("-", r)
 }
 
 /* ---------- C06 ---------- */
@@ -1623,6 +1652,10 @@ fn oracle_step(t: &[&str]) -> String {
             } else {
                 parse_pdu(&t[3..]).map(|(s, _)| adu_rsp("rtu", 0, id, &s)).unwrap_or_else(bad)
             }
+        }
+        "C05" if t.len() == 4 && t[1] == "len" => {
+            let Ok(n) = t[3].parse::<usize>() else { return bad() };
+            c05_len(n, t[2] == "rsp")
         }
         "C05" if t.len() > 4 => {
             let (Ok(tid), Ok(id)) = (t[2].parse::<u16>(), t[3].parse::<u8>()) else { return bad() };
